@@ -330,6 +330,15 @@ def run(ctx, rep):
                 x[1][1][1].endswith('<impl str>::parse') and x[1][1][2] == (('param', 's'),)
             if not okx:
                 return False, f'Ok payload {show(pay)[:200]} is not try_from(parse(s)?)?'
+        # the converse: an Err that is not the failure of str::parse or of try_from is a rejection only the text route makes.
+        # Whether it is redundant (the text would not have parsed anyway) is a question about strings: not decided.
+        for c, v in ite_leaves(ret):
+            if v[0] == 'enum' and v[2] == 'Err':
+                failed = [cc for cc, pol in c if not pol and cc[0] == 'bin' and cc[1] == 'Eq' and cc[2][0] == 'discr' and cc[2][1][0] == 'app' and
+                          (cc[2][1][1].endswith('<impl str>::parse') or cc[2][1][1].endswith('try_from'))]
+                if not failed:
+                    own = [show(cc, maxd=3)[:80] for cc, pol in c]
+                    return None, f'the text route also answers Err under {own}: a rejection of its own, not shared with the other routes - not decided'
         return True, 'Ok(t) only for t = Self::try_from(s.parse::<f64>()?)?; every other outcome is Err'
 
     parse_defaults = [p for p, b in lib.bodies.items() if b.impl_of and 'trait_default' in b.impl_of and
@@ -371,6 +380,50 @@ def run(ctx, rep):
         n_pan += sum(1 for e in eng.log if e['kind'] == 'panic')
         n_text += 1 if good else 0
     rep.floor('verified text routes (shared method or per type)', n_text, 1)
+    # the text route on witness spellings: every form of the float grammar of `str::parse::<f64>` (sign, bare point, exponent in
+    # either case, leading zeros) reaches the shared parse-then-validate step; a text-only test that answers Err for one of them
+    # before parsing rejects a number the other two routes accept.  The route is evaluated with `s` a constant: predicates of
+    # constant text fold (models), `parse` and `try_from` stay uninterpreted, anything else leaves the case undecided.
+    WITNESS = ('1', '-1', '+1', '1.', '.5', '1.5', '1e1', '1E1', '1e-1', '1.5e+1', '0010', '-0')
+    n_w = 0
+    for fn_ in sorted(set(parse_defaults) | {impl_fn(ty, 'str::FromStr', 'from_str')[0] for ty in fromstr_types}):
+        for w_ in WITNESS:
+            eng = ctx.engine()
+            for q_ in tf_of.values():
+                eng.opaque.add(q_)
+            eng.opaque.add(try_from_default)
+            if fn_ not in parse_defaults:
+                for pd in parse_defaults:
+                    eng.opaque.add(pd)
+            try:
+                tree = eng.call_entry(fn_, [E.C('&str', w_)])
+                lv = list(E.leaves_of(tree))
+            except Exception as ex:     # noqa
+                rep.ob('R18.7', f'witness-spelling:{last_seg(fn_)}:{w_}', None, f'not evaluated: {type(ex).__name__}')
+                continue
+            n_w += 1
+            verdict, why = True, 'reaches parse-then-validate'
+            for st_ in lv:
+                for c, v in ite_leaves(st_.ret):
+                    if not (v[0] == 'enum' and v[2] == 'Err'):
+                        continue
+                    conds = list(c) + [(cc, pol) for cc, pol in st_.asm.items()]
+                    failed = [cc for cc, pol in conds if not pol and cc[0] == 'bin' and cc[1] == 'Eq' and cc[2][0] == 'discr' and cc[2][1][0] == 'app'
+                              and (cc[2][1][1].endswith('<impl str>::parse') or cc[2][1][1].endswith('try_from'))]
+                    if failed:
+                        continue
+                    if not conds:
+                        verdict, why = False, (f'the text "{w_}" - a spelling `str::parse::<f64>` accepts - is answered Err before it is parsed: '
+                                               'the text route rejects a number the numeric and JSON routes accept')
+                    elif verdict:
+                        verdict, why = None, f'Err under {[show(cc, maxd=3)[:60] for cc, pol in conds][:2]}: not decided'
+            # this rule is exempt from the run-wide downgrade (its runs are on constant text): it applies the same test to itself
+            odd = sorted(n_ for n_ in eng.unmodelled if n_.startswith(('std::', 'core::', 'alloc::')) and not n_.startswith(
+                ('core::fmt::', 'std::fmt::', 'std::string::ToString', 'core::str::<impl str>::parse', 'std::convert::TryFrom::try_from')))
+            if odd and verdict is False:
+                verdict, why = None, f'[not decided: library calls without a model on this path: {odd[:3]}] ' + why
+            rep.ob('R18.7', f'witness-spelling:{last_seg(fn_)}:{w_}', verdict, why, where=lib.bodies[fn_].span)
+    rep.floor('witness spellings evaluated on the text routes', n_w, len(WITNESS))
     # Deserialize
     for ty in types:
         c = [p for p, b in lib.bodies.items() if (b.impl_of or {}).get('self_ty') == ty and
